@@ -68,7 +68,7 @@ func run(r *vk.Run) {
 		"panics recovered on the caller's goroutine and call errors are counted, not judged (other properties own them); absence of a report means none observed on these schedules",
 		"a program that does not finish within 90 s of wall clock is abandoned: inconclusive (hang/<family>), or only noted when a recovered panic preceded the hang; a worker restarted by the driver after a fatal error resumes from its last saved record (counter resumed-after-crash)")
 
-	nProg := r.Pick(1071, 102000) // multiples of 17 families x 3 yield modes
+	nProg := r.Pick(1071, 68000) // multiples of 17 families x 3 yield modes
 	opsLo, opsHi := 260, 460
 	pg := loadProgress()
 	lastSave := time.Now()
